@@ -1,7 +1,10 @@
 package props
 
 import (
+	"encoding/json"
 	"fmt"
+	"os"
+	"path/filepath"
 	"sort"
 	"strings"
 
@@ -177,5 +180,117 @@ func runC06(w *mon.W) {
 			w.End()
 		}
 	}
-	w.Extra("exhaustive_parts", []string{"25 table ids x 64 codons x 8 casings", "start and stop codon lists of all 25 tables"})
+	c06Carriers(w, &idx)
+	c06Histories(w, &idx)
+	w.Extra("exhaustive_parts", []string{"25 table ids x 64 codons x 8 casings", "start and stop codon lists of all 25 tables", "25 table ids x 64 codons after the table went through the library's JSON writer and reader"})
+}
+
+// c06VerifyTable checks the 64 upper-case codons and both lists of one table value against NCBI.
+func c06VerifyTable(w *mon.W, id string, g *oracle.GeneticCode, tbl codon.Table, how string) bool {
+	ok := true
+	for _, c := range oracle.AllCodons() {
+		var got string
+		var err error
+		p := mon.Try(func() { got, err = codon.Translate(c, tbl) })
+		if p != "" || err != nil || got != g.AminoAcid(c) {
+			w.Violation(id, fmt.Sprintf("table %d %s: codon %s translates to %q (%s %v), NCBI assigns %q", g.ID, how, c, got, p, err, g.AminoAcid(c)), map[string]any{"table": g.ID, "codon": c})
+			ok = false
+			break
+		}
+	}
+	for _, l := range []struct {
+		name      string
+		got, want []string
+	}{{"start", tbl.StartCodons, g.Starts}, {"stop", tbl.StopCodons, g.Stops}} {
+		if hasDup(l.got) || strings.Join(sortedCopy(l.got), ",") != strings.Join(sortedCopy(l.want), ",") {
+			w.Violation(id, fmt.Sprintf("table %d %s: %s codons are %v, NCBI lists %v", g.ID, how, l.name, l.got, sortedCopy(l.want)), map[string]any{"table": g.ID})
+			ok = false
+		}
+	}
+	return ok
+}
+
+// c06Carriers: the table a user translates with may have been stored with the library's own JSON writer
+// and loaded again; it is still one of the 25 tables the library offers.
+func c06Carriers(w *mon.W, idx *int) {
+	tmp := filepath.Join(w.Dir, fmt.Sprintf("c06-%d", w.Shard))
+	os.MkdirAll(tmp, 0755)
+	defer os.RemoveAll(tmp)
+	for gi := range oracle.GeneticCodes {
+		g := &oracle.GeneticCodes[gi]
+		id := fmt.Sprintf("json-%d", g.ID)
+		*idx++
+		if !w.Want(id, *idx) {
+			continue
+		}
+		w.Begin(id, fmt.Sprintf("NCBI table %d through WriteCodonJSON/ReadCodonJSON and Marshal/ParseCodonJSON", g.ID))
+		var viaFile, viaBytes codon.Table
+		path := filepath.Join(tmp, "t.json")
+		p := mon.Try(func() {
+			codon.WriteCodonJSON(codon.GetCodonTable(g.ID), path)
+			viaFile = codon.ReadCodonJSON(path)
+			b, _ := json.Marshal(codon.GetCodonTable(g.ID))
+			viaBytes = codon.ParseCodonJSON(b)
+		})
+		w.Eval(true, mon.Hash64(id))
+		if p != "" {
+			w.Violation(id, "JSON round trip of a library table: "+p, nil)
+		} else {
+			c06VerifyTable(w, id, g, viaFile, "after WriteCodonJSON and ReadCodonJSON")
+			c06VerifyTable(w, id, g, viaBytes, "after json.Marshal and ParseCodonJSON")
+			w.Add("tables_checked_after_json_round_trip", 2)
+		}
+		w.End()
+	}
+}
+
+// c06Histories: other operations of the package run on tables obtained from GetCodonTable; afterwards
+// every table the library offers is requested again and must still be NCBI's (letters and both lists;
+// the weights are not part of this property, see K1 under C08).
+func c06Histories(w *mon.W, idx *int) {
+	n := w.Pick(60, 600)
+	for i := 0; i < n; i++ {
+		id := fmt.Sprintf("history-%d", i)
+		*idx++
+		if !w.Want(id, *idx) {
+			continue
+		}
+		r := w.Rand(id)
+		ga := &oracle.GeneticCodes[r.Intn(len(oracle.GeneticCodes))]
+		gb := &oracle.GeneticCodes[r.Intn(len(oracle.GeneticCodes))]
+		if i%3 == 0 {
+			// pairs that assign the same amino acids but list different starts/stops
+			pairs := [][2]int{{11, 1}, {1, 11}, {28, 27}, {27, 28}, {4, 25}, {2, 5}, {1, 12}, {11, 4}}
+			pr := pairs[(i/3)%len(pairs)]
+			for k := range oracle.GeneticCodes {
+				if oracle.GeneticCodes[k].ID == pr[0] {
+					ga = &oracle.GeneticCodes[k]
+				}
+				if oracle.GeneticCodes[k].ID == pr[1] {
+					gb = &oracle.GeneticCodes[k]
+				}
+			}
+		}
+		dna := randString(r, "ACGT", 3*(1+r.Intn(400)))
+		cut := []float64{0, 0.1, 0.3, 0.05}[r.Intn(4)]
+		ops := fmt.Sprintf("Compromise(%d,%d,%.2f), Add(%d,%d), OptimizeTable(%d, %d bases), Optimize under %d", ga.ID, gb.ID, cut, ga.ID, gb.ID, ga.ID, len(dna), gb.ID)
+		w.Begin(id, ops+" dna="+dna)
+		p := mon.Try(func() {
+			codon.CompromiseCodonTable(codon.GetCodonTable(ga.ID), codon.GetCodonTable(gb.ID), cut)
+			codon.AddCodonTable(codon.GetCodonTable(ga.ID), codon.GetCodonTable(gb.ID))
+			t := codon.GetCodonTable(ga.ID).OptimizeTable(dna)
+			prot, _ := codon.Translate(dna, codon.GetCodonTable(gb.ID))
+			codon.Optimize(strings.ReplaceAll(prot, "*", ""), t)
+		})
+		_ = p // what these operations return or reject is C07/C08/C18's business; here only the tables offered afterwards
+		w.Eval(true, mon.Hash64(id, ops, dna))
+		for gi := range oracle.GeneticCodes {
+			g := &oracle.GeneticCodes[gi]
+			if !c06VerifyTable(w, id, g, codon.GetCodonTable(g.ID), "requested after "+ops) {
+				break
+			}
+		}
+		w.Add("histories_followed_by_all_25_tables", 1)
+		w.End()
+	}
 }
